@@ -36,6 +36,43 @@ fn main() {
             0
         }
         Some("gen-dump") => cmd_gen_dump(&args),
+        Some("c07-debug") => {
+            // triage helper: render every keyframe of a C07 replay with no pool and with the simulated pool
+            let v: Violation = serde_json::from_str(&std::fs::read_to_string(&args[2]).unwrap()).unwrap();
+            let sc: checks::c07::Scenario = serde_json::from_value(v.scenario).unwrap();
+            let bytes = &sc.case.bytes;
+            let show = |name: &str, pool: jxl_oxide::JxlThreadPool, pp: Option<&std::sync::Arc<pool::PermutePool>>| {
+                let img = checks::common::load_chunked(bytes, &simio::ChunkSchedule::whole(bytes.len()), None, pool).unwrap();
+                for k in 0..img.num_loaded_keyframes() {
+                    let r = img.render_frame(k);
+                    if let Some(p) = pp {
+                        p.drain_some();
+                    }
+                    match r {
+                        Ok(_) => println!("{name}: keyframe {k}: Ok"),
+                        Err(e) => {
+                            let mut chain = format!("{e}");
+                            let mut src = std::error::Error::source(&*e);
+                            while let Some(s2) = src {
+                                chain.push_str(&format!(" <- {s2}"));
+                                src = s2.source();
+                            }
+                            println!("{name}: keyframe {k}: Err {chain}");
+                        }
+                    }
+                }
+                for i in 0..img.num_loaded_frames() {
+                    let h = img.frame(i).unwrap().header();
+                    println!("  frame {i}: {:?} keyframe={} lf_level={} use_lf={}", h.frame_type, h.is_keyframe(), h.lf_level, h.flags.use_lf_frame());
+                }
+            };
+            show("no pool", jxl_oxide::JxlThreadPool::none(), None);
+            for &ps in &sc.pool_seeds {
+                let pp = pool::PermutePool::new(ps);
+                show("simulated pool", jxl_oxide::JxlThreadPool::verif(pp.clone() as std::sync::Arc<dyn jxl_threadpool::verif::VerifPool>), Some(&pp));
+            }
+            0
+        }
         _ => {
             eprintln!("usage: jxlsim run --check <c> --start S --count N --tier quick|thorough --out DIR --worker K [--max-secs T] [--log FILE]\n       jxlsim replay <file>");
             2
